@@ -557,6 +557,6 @@ PROPS = {
         "assumptions": ["wall-clock watchdog => inconclusive; CPU budget via RLIMIT_CPU (SIGXCPU => violation 'loops without bound')"],
         "quick": {"runs": [q(deadline=60, watchdog=900), dict(q(deadline=60, watchdog=900), variant="chk")], "floor": {"cases": 500, "engines_built": 150, "distinct_nontrivial": 100}},
         "thorough": {"runs": [q(deadline=600, watchdog=5400), dict(q(deadline=600, watchdog=5400), variant="chk"), dict(q(deadline=360, watchdog=5400), variant="asan", env=ASAN_ENV)],
-                     "floor": {"cases": 50000}},
+                     "floor": {"cases": 4000, "engines_built": 1000, "distinct_nontrivial": 600}},
     },
 }
